@@ -172,8 +172,23 @@ def handlePB (st : St) (n : Nat) (toks : List String) : Result :=
           let strict : Bool := match first with
             | 111 :: 108 :: 100 :: 32 :: ds => !ds.isEmpty && ds.all Bastion.isDigit && (Dec.parseUint64 ds).isSome
             | _ => false
+          -- the lines after the first, up to the first empty one (CR stripped), must exist and be base64
+          let lines := (B.splitOn B.nl b).map (fun l => if l.getLast? = some B.cr then l.dropLast else l)
+          let body := lines.drop 1
+          let short := lines.all (fun l => l.length < 4095)
+          let sepIdx := body.findIdx? (fun l => l.isEmpty)
+          let hasSep := match sepIdx with
+            | some i => i + 1 < body.length        -- an empty line that is itself terminated by a newline
+            | none => false
+          let proofOK := match sepIdx with
+            | some i => (body.take i).all (fun l => (B64.decode l).isSome)
+            | none => true
           if !strict && first.length < 4096 then
             fail r.st n "C11" s!"body with malformed old-size line {hx (first.take 40)} was partly understood as {impl.take 60}" |> fun f => { st := f.st, out := r.out ++ f.out }
+          else if short && !hasSep then
+            fail r.st n "C11" s!"body that ends before the blank separator was partly understood as {impl.take 60}" |> fun f => { st := f.st, out := r.out ++ f.out }
+          else if short && !proofOK then
+            fail r.st n "C11" s!"body with a proof line that is not base64 was partly understood as {impl.take 60}" |> fun f => { st := f.st, out := r.out ++ f.out }
           else r
         else r
     | none => { st, out := [s!"BAD {n} PB"] }
